@@ -79,6 +79,9 @@ def _vt(fn, op):
         return ("ty", tys[0])
     calls = sorted(x[5:] for x in srcs if x.startswith("call:"))
     fields = sorted(x[6:] for x in srcs if x.startswith("field:"))
+    args = sorted(x for x in srcs if re.match(r"^arg\d+$", x))
+    if not calls and not tys and len(args) == 1:
+        return ("arg", int(args[0][3:]))
     return ("sym", "+".join(calls + fields) or "?")
 
 
@@ -111,11 +114,28 @@ def _in_inner_loop(f, b, region):
 NOISE = ("not", "branch", "deref", "borrow", "as_ref", "into", "from", "eq", "ne", "iter", "next", "clone", "into_iter", "rev", "map", "copied")
 
 
-def arm_events(c, f, region):
-    """ordered abstract events of one arm"""
+def _subst(e, f, t):
+    """replace a helper's symbolic parameter (`pop:<@2>`) by what the call site passes"""
+    m = re.search(r"<@(\d+)>|:@(\d+)", e)
+    if not m:
+        return e
+    n = int(m.group(1) or m.group(2))
+    if n - 1 >= len(t["args"]):
+        return e
+    k, v = _vt(f, t["args"][n - 1])
+    rep = v if k == "ty" else ("@%d" % v if k == "arg" else "<" + str(v) + ">")
+    if m.group(1):
+        return e.replace("<@%s>" % m.group(1), rep if k == "ty" else ("<" + rep.strip("<>") + ">"))
+    return e.replace(":@%s" % m.group(2), ":" + rep)
+
+
+def arm_events(c, f, region, depth=0):
+    """ordered abstract events of one arm (local helper functions of the validator are inlined, their type parameters
+    replaced by what the call site passes)"""
     ev = []
     rr = f.reject_region()
     order = [b for b in rpo(f) if b in region]
+    pos = {b: i2 for i2, b in enumerate(order)}
     explained = set()
     for b in order:
         t = f.term(b)
@@ -125,10 +145,11 @@ def arm_events(c, f, region):
                 if re.search(pat, p):
                     e = name
                     if name == "align":
-                        e += ":" + _vt(f, t["args"][1])[1]
+                        k, v = _vt(f, t["args"][1])
+                        e += ":" + (("@%d" % v) if k == "arg" else str(v))
                     elif name in ("pop", "push"):
                         k, v = _vt(f, t["args"][1])
-                        e += ":" + (v if k == "ty" else "<" + v + ">")
+                        e += ":" + (v if k == "ty" else ("<@%d>" % v if k == "arg" else "<" + v + ">"))
                     elif name in ("pops", "pushes"):
                         k, v = _vt(f, t["args"][1])
                         e += ":<" + v + ">"
@@ -146,8 +167,24 @@ def arm_events(c, f, region):
                                 explained.add(int(m.group(1)))
                     if _in_inner_loop(f, b, region):
                         e += "*"
-                    ev.append(e)
+                    ev.append((pos[b], e))
                     break
+            else:
+                if depth < 2 and re.match(r"^concordium_wasm::validate::[a-z_0-9]+$", p) and c.get_all(p):
+                    g = Fn(c.get_all(p)[0])
+                    sub = arm_events(c, g, set(g.reachable()), depth + 1)
+                    if sub:
+                        st_ = "ok"
+                        if re.search(r"Result<|Option<|^bool$", f.locals[t["dest"][0]]):
+                            r = rules.enforcement(f, b)
+                            if r["status"] not in ("enforced", "propagated"):
+                                st_ = r["status"]
+                            m = re.search(r"switch at bb(\d+)", r.get("detail", ""))
+                            if m:
+                                explained.add(int(m.group(1)))
+                        for e2 in sub:
+                            e2 = _subst(e2, f, t)
+                            ev.append((pos[b], e2 + ("" if st_ == "ok" else "!" + st_)))
     # explicit ensures: switches with exactly one rejecting successor that are not the `?` of an event call
     for (sb, st) in f.switches():
         if sb not in region or sb in explained:
@@ -210,10 +247,6 @@ def arm_events(c, f, region):
         lab = "ensure[%s]:" % pol + "+".join(sorted(names))
         if _in_inner_loop(f, sb, region):
             lab += "*"
-        ev.append((sb, lab))
-    # place ensures by block order
-    pos = {b: i for i, b in enumerate(order)}
-    plain = [(pos.get(b, 0), e) for b, e in zip([b for b in order if f.term(b)["k"] == "call" and any(re.search(pat, f.term(b)["f"].get("path", "")) for pat, _ in EVENT_CALLS)], [x for x in ev if isinstance(x, str)])]
-    ens = [(pos.get(sb, 0), lab) for (sb, lab) in [x for x in ev if not isinstance(x, str)]]
-    allv = sorted(plain + ens, key=lambda x: x[0])
-    return [e for _, e in allv]
+        ev.append((pos.get(sb, 0), lab))
+    ev.sort(key=lambda x: x[0])
+    return [e for _, e in ev]
